@@ -19,5 +19,39 @@ CHECKS = {
         "note": PLANNER_NOTE,
         "technique": "Coq proof (invariant by induction over iterations and API histories) + model/implementation correspondence by vm_compute",
     },
+    "C02": {
+        "category": "proof",
+        "text": "Theorems C02_* (coq/Props/C02.v): over every API history, a returned path is s0 :: _ with s0 the first start state of the "
+                "problem installed by the most recent setup / set_problem_definition (the same value, hence bit-identical) and ends in a "
+                "state satisfying that problem's goal (RRT-Connect: or the state its goal sampler returned, hence the explicit "
+                "sampler-soundness hypothesis). Proof: link invariant of the trees + reconstruct lemma (head = root, last = goal node), "
+                "RRT-Connect join lemma, PRM BFS parent-map invariant. Correspondence on random call histories (repeated setup / solve / "
+                "problem replacement) ties the model to the code; endpoint oracle on every real run.",
+        "design_ref": "DESIGN.md section 7 C02",
+        "note": PLANNER_NOTE,
+        "technique": "Coq proof (tree/roadmap invariants over API histories) + model/implementation correspondence by vm_compute",
+    },
+    "C03": {
+        "category": "proof",
+        "text": "Theorems C03_* (coq/Props/C03.v): every pair of consecutive states of a returned path was accepted by check_motion in one "
+                "direction (extension, RRT* choose-parent and rewiring, RRT-Connect connection, PRM links and start connections: one lemma "
+                "per edge kind); an accepted motion means the checker accepted the end state and all interior points i/n with "
+                "n = ceil(d/(lvs*factor)); factor (regenerated from the four check_motion copies in /repo on every run) is in (0,1] so gaps "
+                "are <= lvs; equal spacing of the i/n points is proved in the real model of R^n, SO(2), SO(3)-SLERP. Direct oracle on real "
+                "runs: every point of every returned segment lies within lvs/2 of an accepted state.",
+        "design_ref": "DESIGN.md section 7 C03",
+        "note": PLANNER_NOTE + " Float spacing along a segment is tied to the real-model theorems only by the sampled oracle.",
+        "technique": "Coq proof (link invariant + unfolding of check_motion + real-space spacing theorems) + correspondence by vm_compute",
+    },
+    "C05": {
+        "category": "proof",
+        "text": "Theorems C05_* (coq/Props/C05.v): each consecutive pair of a returned path satisfies an exact float-level branch fact: "
+                "not(d > max_distance), or it is the steered point max/d toward a sample, or d < radius (RRT* choose-parent/rewire, PRM); "
+                "with the space law 'steering lands within the bound' (proved exactly, eps = 0, in the real model of R^n, SO(2), "
+                "SO(3)-SLERP) every link obeys the bound. Direct oracle on real runs measures every returned segment in the space's metric.",
+        "design_ref": "DESIGN.md section 7 C05",
+        "note": PLANNER_NOTE + " The float-level steer law (eps) is a sampled bound, the SO(3) LERP branch deviates by up to 1.1e-6.",
+        "technique": "Coq proof (link invariant carrying step-length facts) + correspondence by vm_compute",
+    },
 }
 NOT_APPLICABLE = {}
